@@ -330,6 +330,12 @@ def callee_set(facts, b, depth=2, _seen=None):
         p = c.get("path")
         if not p:
             continue
+        # a crate-local callee that resolves to one body is looked through (one sibling delegating to the other, or both to a shared
+        # helper that is `pub(crate)` and therefore not inlined by the expansion layer, must compare equal)
+        tgs = facts.targets(c) if c.get("crate") == "specs" and not (c.get("trait") and not c.get("resolved")) else []
+        if len(tgs) == 1 and tgs[0].kind != "Closure" and depth > 0 and tgs[0].path not in _seen:
+            out |= callee_set(facts, tgs[0], depth - 1, _seen)
+            continue
         out.add(p)
         for a in t["args"]:
             if isinstance(a, dict) and "fn" in a:
@@ -343,7 +349,15 @@ def callee_set(facts, b, depth=2, _seen=None):
     return out
 
 
-GEN_NOISE = {"world::entity::Entity::id", "world::entity::Entity::gen", "std::cmp::PartialEq::eq", "std::cmp::PartialEq::ne"}
+GEN_NOISE = {"world::entity::Entity::id", "world::entity::Entity::gen", "std::cmp::PartialEq::eq", "std::cmp::PartialEq::ne",
+             "world::entity::Generation::id", "world::entity::ZeroableGeneration::id"}      # pure accessors
+STYLE_PREFIXES = ("std::option::Option::<T>::", "std::result::Result::<T, E>::", "std::ops::Try::", "std::ops::FromResidual::", "std::ops::Deref::",
+                  "std::convert::", "std::clone::Clone::", "std::iter::Iterator::", "core::slice::<impl [T]>::get", "std::ops::Index::")
+
+
+def essence(cs):
+    """a callee set without what is merely the style an Option / Result is taken apart in (combinator vs match vs `?`)"""
+    return {p for p in cs if p not in GEN_NOISE and not p.startswith(STYLE_PREFIXES)}
 
 
 def r5(ctx, facts, model):
@@ -352,15 +366,15 @@ def r5(ctx, facts, model):
     ctx.anchor("C02-R5", "Allocator::is_alive", ia)
     ctx.anchor("C02-R5", "Allocator::entity", en)
     if ia and en:
-        a = callee_set(facts, ia) - GEN_NOISE
-        e = callee_set(facts, en) - GEN_NOISE
+        a = essence(callee_set(facts, ia))
+        e = essence(callee_set(facts, en))
         ok = a == e
         ctx.ob("C02-R5", "is_alive and entity() compute the current generation alike", ok, ia.loc(),
                "" if ok else "callee sets differ: only in is_alive %s, only in entity %s" % (sorted(a - e), sorted(e - a)))
     gets = [b for b in facts.bodies if b.name == "get" and b.trait_item and b.trait_item.split("::")[-2] in ("Join", "LendJoin", "ParJoin")
             and base_ty(b.self_ty or "") == "world::entity::EntitiesRes"]
     ctx.floor("C02-R5", "join get() impls for &EntitiesRes", len(gets), 2)
-    sets = {b.path: callee_set(facts, b) - GEN_NOISE for b in gets}
+    sets = {b.path: essence(callee_set(facts, b)) for b in gets}
     vals = list(sets.values())
     ok = all(v == vals[0] for v in vals) if vals else False
     ctx.ob("C02-R5", "the entities join get() impls agree", ok, gets[0].loc() if gets else "",
@@ -369,7 +383,7 @@ def r5(ctx, facts, model):
     def gen_part(cs):
         return {p for p in cs if p.startswith(("world::entity::Generation::", "world::entity::ZeroableGeneration::", "world::entity::Allocator::generation"))}
     for b in aa:
-        s = callee_set(facts, b)
+        s = essence(callee_set(facts, b))
         ok2 = bool(vals) and vals[0] <= s and gen_part(vals[0]) == gen_part(s)
         ctx.ob("C02-R5", "%s computes the new handle's generation like the entities join" % b.path, ok2, b.loc(),
                "" if ok2 else "the deferred allocation and the entities join disagree on how the generation of an index is computed: "
